@@ -247,6 +247,30 @@ def rise_set(repo, rep):
         rep.ok("R-TAINT-SHIFT", site, "leap seconds looked up with the civil (year, month) returned by get_date()")
     else:
         rep.violation("R-TAINT-SHIFT", site, "leap-args", "the leap-second term is not looked up with the civil year/month of the date")
+    # R-NOEVENT: near the polar circles (and with dip) the Sun may not reach the standard altitude: |cos(hour angle)| > 1.
+    # That case must surface - acos() of the raw cosine raises ValueError, or an explicit test refuses / reports it - and must
+    # not be masked by clamping the cosine into [-1, 1], which fabricates instants at transit -/+ 12 h.
+    rep.rule("R-NOEVENT", "the hour-angle cosine reaches acos() unclamped (or |cos| > 1 is tested explicitly): days without sunrise/sunset are not turned into fabricated instants")
+    acs = find_calls(t, "acos") if t is not None else []
+    if not acs:
+        rep.inconcl("R-NOEVENT", site, "no acos() of an hour-angle cosine found in the returned instants")
+    else:
+        clamped = []
+        for c in acs:
+            a_ = c[2]
+            inner = [x for x in T.walk(a_) if (x[0] == "call" and x[1] in ("min", "max", "fmin", "fmax", "clip"))
+                     or (x[0] == "phi" and any(l in (T.ONE, T.num(-1)) for l in (x[2], x[3])))]
+            if inner:
+                clamped.append(inner[0])
+        tested = any(o.kind in ("raise", "ret") and any(cj[0] == "cmp" and cj[1] in ("Gt", "GtE") and cj[3] == T.ONE and cj[2][0] == "call" and cj[2][1] == "abs"
+                                                         for cj in conjuncts(o.cond)) and (o.kind == "raise" or o.value == T.NONE or (o.value is not None and T.NONE in o.value))
+                     for o in outs)
+        if clamped and not tested:
+            rep.violation("R-NOEVENT", site, "clamped-cosine", "the hour-angle cosine is forced into [-1, 1] (%s) before acos(): when the Sun never reaches the standard altitude "
+                          "(|cos| > 1) the method returns instants at transit -/+ 12 h instead of refusing" % T.show(clamped[0])[:80], obligation=True)
+        else:
+            rep.ok("R-NOEVENT", site, "acos() receives the raw hour-angle cosine: |cos| > 1 raises ValueError (math domain)" if not clamped else
+                   "|cos| > 1 is tested explicitly before the clamp", obligation=True)
 
 
 def trts(repo, rep):
